@@ -36,6 +36,8 @@ def try_reproduce(payload, search=False, seed=0):
         return {"reproduced": False, "detail": f"cannot locate contract case: {e}"}
     from contracts.core_models import NS
 
+    if not case.native:
+        return {"reproduced": False, "assignment": payload.get("assignment"), "detail": "this contract case has no native counterpart (ghost state / symbolic cache); see the verifier output"}
     asg = dict(payload.get("assignment") or {})
     names = [n for s in case.shapes() for n in s.names]
     if all(n in asg for n in names):
